@@ -18,7 +18,7 @@ From Coq Require Import List NArith ZArith.
 From Coq.Strings Require Import Byte.
 From SP Require Import Bytes Params Msgpack Crypto Errors Packets Chunker Rand Verify Encrypt Decrypt Signcrypt
      SignAuthProofs ScAuthProofs ScAuthLocated.
-From SP Require Import Nonce Packets Signcrypt GoLang GoAst GoAstProofs GoAstProofs2.
+From SP Require Import Nonce Packets Signcrypt GoLang GoLang2 GoAst GoAstProofs GoAstProofs2 GoAstProofs3 GoAstProofs4b.
 From Coq Require String.
 Import String.StringSyntax.
 Import ListNotations.
@@ -74,6 +74,30 @@ Theorem C04_source_nonceForChunkSigncryption (c : crypto) (hh : bytes) (final : 
   = ORet [VBytes (nonce_chunk_signcryption hh final i)].
 Proof. exact (go_nonceForChunkSigncryption c hh final i). Qed.
 
+(* SOURCE TIE (per-packet glue): the translated signcryptOpenStream.getNextChunk of /repo, run on a receiver object
+   holding the unconsumed input BYTES and Go's packet counter, returns exactly what one step of the model's
+   receive loop says and leaves the stream advanced — for ALL inputs.  `C04_source_signcrypt_loop_is_step` shows the model's
+   loop is that step followed by the end-of-stream check or the next iteration. *)
+Theorem C04_source_signcrypt_getNextChunk (c : crypto) (pkey hh : bytes) (signer : option bytes) (n : N) (input : bytes) :
+  (n < 18446744073709551616)%N ->
+  chunk_spec "sos" VBytes (fun rest => g_sos pkey hh signer (g_mps rest (n + 1)))
+             (sc_step c pkey signer hh n input)
+             (run_func2 (ext_chunk c TSigncryptionBlock) f_saltpack_signcryptOpenStream_getNextChunk
+                        [g_sos pkey hh signer (g_mps input n)]).
+Proof. exact (go_signcrypt_getNextChunk c pkey hh signer n input). Qed.
+
+Theorem C04_source_signcrypt_loop_is_step (c : crypto) (fuel : nat) (pkey : bytes) (signer : option bytes) (hh : bytes) (n : N) (input : bytes) (acc : list bytes) :
+  sc_open_loop c (S fuel) pkey signer hh n input acc =
+  match sc_step c pkey signer hh n input with
+  | Err e => mkOut (rev_append acc []) e
+  | Ok (chunk, final, rest) =>
+    if final then mkOut (rev_append (chunk :: acc) []) (assert_end_of_stream rest)
+    else sc_open_loop c fuel pkey signer hh (n + 1) rest (chunk :: acc)
+  end.
+Proof. exact (sc_open_loop_step c fuel pkey signer hh n input acc). Qed.
+
+Print Assumptions C04_source_signcrypt_getNextChunk.
+Print Assumptions C04_source_signcrypt_loop_is_step.
 Print Assumptions C04_source_signcrypt_processBlock.
 Print Assumptions C04_source_computeSigncryptionSignatureInput.
 Print Assumptions C04_source_nonceForChunkSigncryption.
